@@ -54,6 +54,18 @@ func (s *c17Scenario) files() map[string]string {
 			case "extend":
 				sb.WriteString("// goverter:extend NoSuchFunction\n")
 			}
+			if c.fault == "location" || c.fault == "location2" {
+				// fails only when the files are written: the output file is an existing directory / lies below a regular file
+				if c.fault == "location" {
+					fmt.Fprintf(&sb, "// goverter:output:file ./blocked%s\n", strings.ToLower(c.name))
+					files[fmt.Sprintf("pk%d/blocked%s/.keep", p, strings.ToLower(c.name))] = "keep\n"
+				} else {
+					fmt.Fprintf(&sb, "// goverter:output:file ./plain%s.txt/gen.go\n", strings.ToLower(c.name))
+					files[fmt.Sprintf("pk%d/plain%s.txt", p, strings.ToLower(c.name))] = "a regular file\n"
+				}
+				fmt.Fprintf(&sb, "type %s interface {\n\tConvert(source In%s) Out%s\n}\n\n", c.name, c.name, c.name)
+				continue
+			}
 			switch c.out {
 			case "own":
 				fmt.Fprintf(&sb, "// goverter:output:file ./generated/%s.go\n", strings.ToLower(c.name))
@@ -91,6 +103,11 @@ func mutating(evs []core.FSEvent) []string {
 		if e.Fail {
 			continue
 		}
+		if (e.Op == "openat" || e.Op == "open") && !strings.Contains(e.Flags, "O_CREAT") && !strings.Contains(e.Flags, "O_TRUNC") && !strings.Contains(e.Flags, "O_APPEND") {
+			// opening an existing file for writing creates, truncates and modifies nothing; a write through that
+			// descriptor is an event of its own
+			continue
+		}
 		out = append(out, e.String())
 	}
 	return out
@@ -99,7 +116,7 @@ func mutating(evs []core.FSEvent) []string {
 // C17: a failing run changes no files and the exit status reflects the outcome.
 func C17(e *core.Env) int {
 	rep := core.NewReport(e, "fault_enumeration")
-	rep.Rule = "scenarios of 2-5 packages with 2-7 converters (default, own-file, shared-package and same-package outputs); for every scenario every non-empty subset of converters (all subsets up to 4 converters, seeded random subsets beyond) is made faulty at one of five stages (directive parsing, custom function lookup, signature, conversion, rendering of the finished file) with prior output state none/current/stale/foreign; each run is the real CLI under strace -ff: a failing run must exit 1 with a diagnostic, perform no successful create/truncate/write/rename/unlink/mkdir/chmod below the module tree, and leave the tree digest (content, mode, mtime) unchanged; the fault-free run must exit 0 and leave exactly the bytes of the in-process generation result; help exits 0, usage errors exit 1, neither writes; injected ENOSPC/EACCES on write/openat/mkdirat of an output must not end in exit 0 with a missing or short file; non-trivial = a run with >=1 faulty and >=1 healthy converter, or an injected fault that fired; distinct = (scenario shape, faulty subset, stages, prior state)"
+	rep.Rule = "scenarios of 2-5 packages with 2-7 converters (default, own-file, shared-package and same-package outputs); for every scenario every non-empty subset of converters (all subsets up to 4 converters, seeded random subsets beyond) is made faulty at one of six stages (directive parsing, custom function lookup, signature, conversion, rendering of the finished file, an output location that cannot be written: existing directory / path below a regular file) with prior output state none/current/stale/foreign; each run is the real CLI under strace -ff: a failing run must exit 1 with a diagnostic, perform no successful create/truncate/write/rename/unlink/mkdir/chmod below the module tree, and leave the tree digest (content, mode, mtime) unchanged; the fault-free run must exit 0 and leave exactly the bytes of the in-process generation result; help exits 0, usage errors exit 1, neither writes; injected ENOSPC/EACCES on write/openat/mkdirat of an output must not end in exit 0 with a missing or short file; non-trivial = a run with >=1 faulty and >=1 healthy converter, or an injected fault that fired; distinct = (scenario shape, faulty subset, stages, prior state)"
 	rep.Assumptions = []string{"strace sees every file-system syscall of the CLI and its children", "the in-process generation result (public API) is the reference for the bytes of a successful run"}
 	rep.Floor = tierN(e, 20, 300)
 	bin, err := e.BuildCLI("plain")
@@ -123,7 +140,7 @@ func C17(e *core.Env) int {
 		label  string
 	}
 	var runs []run
-	stages := []string{"directive", "signature", "conversion", "render", "extend"}
+	stages := []string{"directive", "signature", "conversion", "render", "extend", "location", "location2"}
 	priors := []string{"none", "current", "stale", "foreign"}
 	outs := []string{"", "", "own", "shared", "same", "deep"}
 	for si := 0; si < nScen; si++ {
